@@ -7,6 +7,8 @@ package netconf
 import (
 	"context"
 	"fmt"
+	sdcpb "github.com/sdcio/sdc-protos/sdcpb"
+	"strings"
 	"testing"
 
 	"github.com/beevik/etree"
@@ -57,4 +59,71 @@ func TestVerifReplayTransform(t *testing.T) {
 		}()
 	}
 	fmt.Printf("REPLAY-CASES fn=%s n=%d\n", fn, n)
+}
+
+// TestVerifReplayPathFilter (C11): the XML a path is turned into (the subtree filter of a NETCONF get, built by
+// XMLConfigBuilder.AddElements) names the list entries of the path by all their keys; two paths into different entries
+// of a list give two entry elements, two paths into one entry share it.
+func TestVerifReplayPathFilter(t *testing.T) {
+	fns := []string{"(*datastore/target/netconf.XMLConfigBuilder).fastForward", "datastore/target/netconf.pathElem2EtreePath"}
+	scl, schema, err := testhelper.InitSDCIOSchema()
+	if err != nil {
+		t.Fatal(err)
+	}
+	scb := schemaClient.NewSchemaClientBound(schema.GetSchema(), scl)
+	elem := func(name string, kv ...string) *sdcpb.PathElem {
+		pe := &sdcpb.PathElem{Name: name}
+		for i := 0; i+1 < len(kv); i += 2 {
+			if pe.Key == nil {
+				pe.Key = map[string]string{}
+			}
+			pe.Key[kv[i]] = kv[i+1]
+		}
+		return pe
+	}
+	cases := []struct {
+		name    string
+		paths   []*sdcpb.Path
+		element string // the list element counted in the result
+		entries int
+	}{
+		{"one-key list, two leaves of one entry", []*sdcpb.Path{{Elem: []*sdcpb.PathElem{elem("interface", "name", "e1"), elem("description")}}, {Elem: []*sdcpb.PathElem{elem("interface", "name", "e1"), elem("mtu")}}}, "interface", 1},
+		{"one-key list, two entries", []*sdcpb.Path{{Elem: []*sdcpb.PathElem{elem("interface", "name", "e1"), elem("description")}}, {Elem: []*sdcpb.PathElem{elem("interface", "name", "e2"), elem("description")}}}, "interface", 2},
+		{"two-key list, one leaf of one entry", []*sdcpb.Path{{Elem: []*sdcpb.PathElem{elem("doublekey", "key1", "a", "key2", "b"), elem("mandato")}}}, "doublekey", 1},
+		{"two-key list, two leaves of one entry", []*sdcpb.Path{{Elem: []*sdcpb.PathElem{elem("doublekey", "key1", "a", "key2", "b"), elem("mandato")}}, {Elem: []*sdcpb.PathElem{elem("doublekey", "key1", "a", "key2", "b"), elem("cont")}}}, "doublekey", 1},
+		{"two-key list, entries that differ in the second key", []*sdcpb.Path{{Elem: []*sdcpb.PathElem{elem("doublekey", "key1", "a", "key2", "b"), elem("mandato")}}, {Elem: []*sdcpb.PathElem{elem("doublekey", "key1", "a", "key2", "c"), elem("mandato")}}}, "doublekey", 2},
+	}
+	n := 0
+	for _, c := range cases {
+		n++
+		in := "paths of the filter: " + c.name
+		func() {
+			defer func() {
+				if r := recover(); r != nil {
+					for _, fn := range fns {
+						fmt.Printf("REPLAY-FAIL fn=%s clause=panic input=%s panic=%v\n", fn, in, r)
+					}
+				}
+			}()
+			b := NewXMLConfigBuilder(scb, &XMLConfigBuilderOpts{})
+			for _, p := range c.paths {
+				if err := b.AddElements(context.Background(), p); err != nil {
+					for _, fn := range fns {
+						fmt.Printf("REPLAY-FAIL fn=%s clause=every_key_names_the_entry input=%s why=path %v is refused: %v\n", fn, in, p, err)
+					}
+					return
+				}
+			}
+			got := len(b.doc.FindElements("//" + c.element))
+			if got != c.entries {
+				xml, _ := b.GetDoc()
+				for _, fn := range fns {
+					fmt.Printf("REPLAY-FAIL fn=%s clause=every_key_names_the_entry input=%s why=%d %s element(s), expected %d: %s\n", fn, in, got, c.element, c.entries, strings.Join(strings.Fields(xml), " "))
+				}
+			}
+		}()
+	}
+	for _, fn := range fns {
+		fmt.Printf("REPLAY-CASES fn=%s n=%d\n", fn, n)
+	}
 }
